@@ -248,3 +248,40 @@ def plan_size(plan: Any) -> int:
 
 def canonical(plan: Any) -> str:
     return json.dumps(plan, sort_keys=True, separators=(",", ":"))
+
+
+# --------------------------------------------------------------------------- library exceptions inside a run
+
+def _innermost_library_frame(tb) -> Optional[str]:
+    import os
+    import traceback
+    name = None
+    last_is_lib = False
+    for fs in traceback.extract_tb(tb):
+        fn = fs.filename.replace("\\", "/")
+        last_is_lib = "dissect/cobaltstrike/" in fn
+        if last_is_lib:
+            name = f"{os.path.basename(fn)}:{fs.name}"
+    return name
+
+
+def guarded(prop_id: str, execute: Callable[[dict], "Result"]) -> Callable[[dict], "Result"]:
+    """Wrap a property's execute(): an exception that escapes from code under test at a place where the harness expected
+    none (the workload is in the property's domain, every expected exception is caught where it is expected) means the
+    run cannot show the property - it is reported as a violation of that property, with the exception type and the
+    library function as signature. Exceptions raised by harness code itself stay harness errors."""
+    def run(plan: dict) -> "Result":
+        try:
+            return execute(plan)
+        except HarnessError:
+            raise
+        except Exception as e:  # noqa: BLE001
+            where = _innermost_library_frame(e.__traceback__)
+            if where is None:
+                raise
+            res = Result()
+            res.violate((prop_id, "library_raised_in_run", type(e).__name__, where),
+                        f"the code under test raised {type(e).__name__}: {e!r:.300} in {where} at a point of the run where the "
+                        f"workload is in the property's domain and no exception is expected")
+            return res
+    return run
